@@ -336,12 +336,11 @@ def mergeJoinFuel (lk rk : Tuple → Cell) (ok : Tuple → Tuple → Bool) :
     if c < 0 then mergeJoinFuel lk rk ok fuel ls (r :: rs)
     else if c > 0 then mergeJoinFuel lk rk ok fuel (l :: ls) rs
     else
-      let (buf, rest) := fillBuf rk (lk l) rs
-      let group := buf ++ [r]
+      let fb := fillBuf rk (lk l) rs
       let same := ls.takeWhile (fun l' => ccmp (lk l) (lk l') == 0)
       let lsRest := ls.dropWhile (fun l' => ccmp (lk l) (lk l') == 0)
-      let out := (l :: same).flatMap (fun a => (group.filter (ok a)).map (fun b => (a, b)))
-      out ++ mergeJoinFuel lk rk ok fuel lsRest rest
+      (l :: same).flatMap (fun a => ((fb.1 ++ [r]).filter (ok a)).map (fun b => (a, b)))
+        ++ mergeJoinFuel lk rk ok fuel lsRest fb.2
 
 def mergeJoin (lk rk : Tuple → Cell) (ok : Tuple → Tuple → Bool) (left right : List Tuple) : List (Tuple × Tuple) :=
   mergeJoinFuel lk rk ok (left.length + right.length + 1) left right
